@@ -81,3 +81,18 @@ CHECKS["C11"] = dict(
                "for the process-wide lru_cache of normalize_type.",
     design_ref="DESIGN.md 3/C11",
 )
+
+CHECKS["C14"] = dict(
+    category="other",
+    technique="path-condition analysis of as-is returns; element-coercer obligations; handler path rule for unlinked "
+              "fields",
+    text="Decides, for every path of every builtin coercer provider that returns the as-is coercer, that the path "
+         "condition is one of the documented justifications over FULL normalised types (equality, subset/membership, "
+         "destination Any, non-generic subclass, as-is inner coercer); that structural coercers request a mandatory "
+         "coercer per converted type argument, apply it in the returned closure and guard the arity of a union before "
+         "picking one member; that no path out of the unlinked-field handler skips a field unless the policy allows it "
+         "for a non-required field, and the builtin recipe forbids by default.",
+    level_note="Trusted: Python ast. User supplied coercers are outside the property. Decides the core clause "
+               "(no unsound as-is / skip decision in the providers), not the runtime types of converted objects.",
+    design_ref="DESIGN.md 3/C14",
+)
